@@ -24,6 +24,8 @@ REPO = os.environ.get("VERIF_REPO", "/repo")
 # trial runs against a seeded change (tools/try_mutant.sh) redirect these two so that committed evidence is never overwritten
 EVIDENCE = os.environ.get("VERIF_EVIDENCE_DIR", os.path.join(VERIF, "evidence"))
 REPLAYS = os.environ.get("VERIF_REPLAYS_DIR", os.path.join(VERIF, "replays"))
+REPLAY_KEY = None     # set by ./check --replay: only this class of violation is reported
+REPLAY_SOURCE = None  # the replay file being replayed (named in the VIOLATION line of a replay)
 KNOWN = os.path.join(VERIF, "known_findings.json")
 JAR = "/opt/veriftools/tla/tla2tools.jar"
 CM = "/opt/veriftools/tla/CommunityModules-deps.jar"
@@ -292,6 +294,8 @@ class Verdict:
         os.makedirs(REPLAYS, exist_ok=True)
         new, kn = [], {}
         for key, what, replay in self.violations:
+            if REPLAY_KEY is not None and key != REPLAY_KEY:
+                continue
             if (self.prop, key) in known:
                 kn.setdefault(key, []).append(what)
             else:
@@ -311,7 +315,7 @@ class Verdict:
                           default=str)
             seen[key] = [path, 1, what]
         for key, (path, n, what) in seen.items():
-            print(f"VIOLATION property={self.prop} replay={path}")
+            print(f"VIOLATION property={self.prop} replay={REPLAY_SOURCE or path}")
             print(f"  key={key} occurrences={n} {what[:1000]}")
         cov = dict(self.coverage)
         cov.setdefault("samples", ["(none recorded)"])
